@@ -40,6 +40,8 @@ func checkC07(c *Ctx) {
 	c.Expect("C07-R4", 4)
 	c.Expect("C07-R5", 5)
 	c.Expect("C07-R6", 49)
+	c.Rule("C07-R11", "variables, constants and unary operators as terminfo(5) defines them: %P/%g address the static variables with ch-'A' under 'A'..'Z' and the dynamic ones with ch-'a' under 'a'..'z'; %'c' pushes the quoted character; %{n} accumulates decimal digits from zero; %l pushes the popped string's length; %! pushes x==0; %~ pushes x^-1")
+	c.Expect("C07-R11", 9)
 	if err := tpSelfTest(); err != nil {
 		c.Undecided("C07-R6", "self-test", "-", err.Error())
 		return
@@ -127,6 +129,7 @@ func checkC07(c *Ctx) {
 	c07PopDiscipline(c, p, fn)
 	c07CharOutput(c, p, fn, opCmp)
 	c07BinOps(c, p, fn, dispatch)
+	c07Handlers(c, p, fn, dispatch)
 	c07Stack(c, p)
 	c07Loops(c, p, fn, chOf)
 	c07Index(c, p, fn)
@@ -1145,4 +1148,270 @@ func tparmDispatch(p *Prog) (*ssa.Function, ssa.Value) {
 		}
 	})
 	return fn, dispatch
+}
+
+// ---- R11: the operators no database string exercises much — variables, constants, unary operators.
+// Each handler's shape is compared with terminfo(5): %P/%g address the 26 static variables with
+// ch-'A' under 'A'..'Z' and the 26 dynamic ones with ch-'a' under 'a'..'z' (two different arrays, the
+// static one at package level); %'c' pushes the character between the quotes; %{n} accumulates decimal
+// digits from zero; %l pushes the length of the popped string; %! pushes (x == 0), %~ pushes x ^ -1.
+func c07Handlers(c *Ctx, p *Prog, fn *ssa.Function, dispatch ssa.Value) {
+	region := func(ch byte) map[*ssa.BasicBlock]bool {
+		var start *ssa.BasicBlock
+		for _, r := range referrers(dispatch) {
+			bo, ok := r.(*ssa.BinOp)
+			if !ok || bo.Op != token.EQL {
+				continue
+			}
+			if k, isK := constInt(bo.Y); !isK || k != int64(ch) {
+				continue
+			}
+			for _, r2 := range referrers(bo) {
+				if iff, isIf := r2.(*ssa.If); isIf {
+					start = iff.Block().Succs[0]
+				}
+			}
+		}
+		if start == nil {
+			return nil
+		}
+		out := map[*ssa.BasicBlock]bool{}
+		for _, b := range fn.Blocks {
+			if start.Dominates(b) {
+				out[b] = true
+			}
+		}
+		return out
+	}
+	inRegion := func(reg map[*ssa.BasicBlock]bool, f func(in ssa.Instruction)) {
+		for _, b := range fn.Blocks {
+			if reg[b] {
+				for _, in := range b.Instrs {
+					f(in)
+				}
+			}
+		}
+	}
+	pushArgs := func(reg map[*ssa.BasicBlock]bool) []ssa.Value {
+		var out []ssa.Value
+		inRegion(reg, func(in ssa.Instruction) {
+			if cc := callCommon(in); cc != nil && strings.HasSuffix(calleeName(cc), "stack).Push") && len(cc.Args) == 2 {
+				v := cc.Args[1]
+				if mi, ok := v.(*ssa.MakeInterface); ok {
+					v = mi.X
+				}
+				out = append(out, v)
+			}
+		})
+		return out
+	}
+	// variable cells: IndexAddr on the package-level static array or on the local dynamic array
+	type cellUse struct {
+		in      ssa.Instruction
+		static  bool
+		offset  int64
+		lo, hi  bool
+		isStore bool
+		pushed  bool
+	}
+	varUses := func(reg map[*ssa.BasicBlock]bool) []cellUse {
+		var out []cellUse
+		inRegion(reg, func(in ssa.Instruction) {
+			ia, ok := in.(*ssa.IndexAddr)
+			if !ok {
+				return
+			}
+			arr, isArr := ia.X.Type().Underlying().(*types.Pointer)
+			if !isArr {
+				return
+			}
+			at, isArr2 := arr.Elem().Underlying().(*types.Array)
+			if !isArr2 || at.Len() != 26 {
+				return
+			}
+			u := cellUse{in: in}
+			if _, isG := ia.X.(*ssa.Global); isG {
+				u.static = true
+			}
+			idx := stripConv(ia.Index)
+			if bo, isBO := idx.(*ssa.BinOp); isBO && bo.Op == token.SUB {
+				if k, isK := constInt(bo.Y); isK {
+					u.offset = k
+				}
+			}
+			want := int64('a')
+			if u.static {
+				want = 'A'
+			}
+			for _, a := range guardsAt(ia.Block()) {
+				if (a.Op == ">=" && a.R == fmt.Sprint(want)) || (a.Op == "<" && a.R == fmt.Sprint(want)) {
+					u.lo = a.Op == ">="
+				}
+				if a.Op == "<=" && a.R == fmt.Sprint(want+25) {
+					u.hi = true
+				}
+			}
+			for _, r := range referrers(ia) {
+				switch x := r.(type) {
+				case *ssa.Store:
+					if x.Addr == ssa.Value(ia) {
+						u.isStore = true
+					}
+				case *ssa.UnOp:
+					for _, r2 := range referrers(x) {
+						if mi, isMI := r2.(*ssa.MakeInterface); isMI {
+							for _, r3 := range referrers(mi) {
+								if cc := callCommon(r3.(ssa.Instruction)); cc != nil && strings.HasSuffix(calleeName(cc), "stack).Push") {
+									u.pushed = true
+								}
+							}
+						}
+					}
+				}
+			}
+			out = append(out, u)
+		})
+		return out
+	}
+	for _, op := range []struct {
+		ch    byte
+		store bool
+	}{{'P', true}, {'g', false}} {
+		reg := region(op.ch)
+		if reg == nil {
+			c.Undecided("C07-R11", fmt.Sprintf("op:%%%c", op.ch), p.pos(fn.Pos()), "case not found")
+			continue
+		}
+		seen := map[bool]bool{}
+		for _, u := range varUses(reg) {
+			kind := "dynamic"
+			want := int64('a')
+			if u.static {
+				kind, want = "static", 'A'
+			}
+			seen[u.static] = true
+			okUse := u.offset == want && u.lo && u.hi && ((op.store && u.isStore) || (!op.store && u.pushed))
+			c.Check(okUse, "C07-R11", fmt.Sprintf("op:%%%c:%s-variable", op.ch, kind), p.pos(u.in.Pos()),
+				fmt.Sprintf("index = ch - %d (want %d), range test lower %v upper %v, stored %v, pushed %v", u.offset, want, u.lo, u.hi, u.isStore, u.pushed))
+		}
+		if !seen[true] || !seen[false] {
+			c.Fail("C07-R11", fmt.Sprintf("op:%%%c:both-variable-sets", op.ch), p.pos(fn.Pos()), fmt.Sprintf("static variables addressed: %v, dynamic: %v", seen[true], seen[false]))
+		}
+	}
+	// the static set is package state, the dynamic set lives in the call (R10 covers the rest)
+	// %'c'
+	if reg := region('\''); reg != nil {
+		var first *ssa.Call
+		inRegion(reg, func(in ssa.Instruction) {
+			if call, ok := in.(*ssa.Call); ok && first == nil && strings.HasSuffix(calleeName(&call.Call), "paramsBuffer).NextCh") {
+				first = call
+			}
+		})
+		ok := false
+		for _, v := range pushArgs(reg) {
+			if ex, isEx := stripConv(v).(*ssa.Extract); isEx && first != nil && ex.Tuple == ssa.Value(first) && ex.Index == 0 {
+				ok = true
+			}
+		}
+		c.Check(ok, "C07-R11", "op:%'c':pushes-the-character", p.pos(fn.Pos()), "the value pushed is the byte read right after the quote")
+	} else {
+		c.Undecided("C07-R11", "op:%'c'", p.pos(fn.Pos()), "case not found")
+	}
+	// %{n}
+	if reg := region('{'); reg != nil {
+		ok := false
+		inRegion(reg, func(in ssa.Instruction) {
+			phi, isPhi := in.(*ssa.Phi)
+			if !isPhi {
+				return
+			}
+			zero, acc := false, false
+			for _, e := range phi.Edges {
+				if k, isK := constInt(e); isK && k == 0 {
+					zero = true
+				}
+				if add, isAdd := e.(*ssa.BinOp); isAdd && add.Op == token.ADD {
+					if mul, isMul := add.X.(*ssa.BinOp); isMul && mul.Op == token.MUL && mul.X == ssa.Value(phi) {
+						if k, isK := constInt(mul.Y); isK && k == 10 {
+							if sub, isSub := stripConv(add.Y).(*ssa.BinOp); isSub && sub.Op == token.SUB {
+								if k2, isK2 := constInt(sub.Y); isK2 && k2 == '0' {
+									acc = true
+								}
+							}
+						}
+					}
+				}
+			}
+			if zero && acc {
+				for _, v := range pushArgs(reg) {
+					if v == ssa.Value(phi) {
+						ok = true
+					}
+				}
+			}
+		})
+		c.Check(ok, "C07-R11", "op:%{n}:decimal-constant", p.pos(fn.Pos()), "pushes n accumulated as n*10 + (digit - '0') starting from zero")
+	} else {
+		c.Undecided("C07-R11", "op:%{n}", p.pos(fn.Pos()), "case not found")
+	}
+	// %l
+	if reg := region('l'); reg != nil {
+		ok := false
+		for _, v := range pushArgs(reg) {
+			if call, isCall := v.(*ssa.Call); isCall {
+				if b, isB := call.Call.Value.(*ssa.Builtin); isB && b.Name() == "len" {
+					if ex, isEx := call.Call.Args[0].(*ssa.Extract); isEx && ex.Index == 0 {
+						if pc, isPC := ex.Tuple.(*ssa.Call); isPC && strings.HasSuffix(calleeName(&pc.Call), "stack).PopString") {
+							ok = true
+						}
+					}
+				}
+			}
+		}
+		c.Check(ok, "C07-R11", "op:%l:string-length", p.pos(fn.Pos()), "pushes len() of the popped string")
+	} else {
+		c.Undecided("C07-R11", "op:%l", p.pos(fn.Pos()), "case not found")
+	}
+	// %! and %~
+	popped := func(v ssa.Value) bool {
+		ex, isEx := v.(*ssa.Extract)
+		if !isEx || ex.Index != 0 {
+			return false
+		}
+		pc, isPC := ex.Tuple.(*ssa.Call)
+		return isPC && strings.HasSuffix(calleeName(&pc.Call), "stack).PopInt")
+	}
+	if reg := region('!'); reg != nil {
+		ok := false
+		for _, v := range pushArgs(reg) {
+			if bo, isBO := v.(*ssa.BinOp); isBO && bo.Op == token.EQL && popped(bo.X) {
+				if k, isK := constInt(bo.Y); isK && k == 0 {
+					ok = true
+				}
+			}
+		}
+		c.Check(ok, "C07-R11", "op:%!:logical-not", p.pos(fn.Pos()), "pushes (x == 0)")
+	} else {
+		c.Undecided("C07-R11", "op:%!", p.pos(fn.Pos()), "case not found")
+	}
+	if reg := region('~'); reg != nil {
+		ok := false
+		for _, v := range pushArgs(reg) {
+			switch x := v.(type) {
+			case *ssa.BinOp:
+				if x.Op == token.XOR && popped(x.X) {
+					if k, isK := constInt(x.Y); isK && k == -1 {
+						ok = true
+					}
+				}
+			case *ssa.UnOp:
+				if x.Op == token.XOR && popped(x.X) {
+					ok = true
+				}
+			}
+		}
+		c.Check(ok, "C07-R11", "op:%~:bit-complement", p.pos(fn.Pos()), "pushes x ^ -1")
+	} else {
+		c.Undecided("C07-R11", "op:%~", p.pos(fn.Pos()), "case not found")
+	}
 }
